@@ -45,6 +45,7 @@ func main() {
 	devnull, _ := os.OpenFile("/dev/null", os.O_WRONLY, 0)
 	os.Stdout = devnull
 	syscall.Dup2(int(devnull.Fd()), 1)
+	os.Stderr = devnull // the ANTLR console listener writes here; fd 2 stays real for runtime crash reports
 
 	if id == "--worker" || id == "worker" {
 		checks.Worker()
